@@ -293,6 +293,7 @@ type SX struct {
 	ForceStep func(*types.Func) bool // calls recorded as effect steps even when pure (ordering matters to the rule)
 	// InlineStaticSelf: also inline exported methods of the container types when they are called on the bare receiver variable
 	InlineStaticSelf bool
+	inAccessor       bool
 	KeepUnboxed      bool // the rule reads the wrapper tests themselves (TypeOf, Sort): no atom algebra
 	addrTaken        map[types.Object]bool
 	loopID           int
@@ -2360,7 +2361,7 @@ func (x *SX) evalFork(e ast.Expr, st *sxState) []evalOut {
 			return x.evalFork(v.X, st)
 		}
 		T := st.subst(c.typeOf(v.Type))
-		return x.map1(v.X, st, func(t Term, st *sxState) Term { return TAssert{t, T} })
+		return x.map1(v.X, st, func(t Term, st *sxState) Term { return TAssert{x.ifaceOperand(t), T} })
 	case *ast.CallExpr:
 		return x.call(v, st, 1)
 	case *ast.KeyValueExpr:
@@ -2378,7 +2379,7 @@ func (x *SX) evalForkTuple(e ast.Expr, st *sxState, n int) []evalOut {
 		outs := x.evalFork(v.X, st)
 		for i := range outs {
 			if outs[i].kind == "" {
-				a := TAssert{outs[i].val, T}
+				a := TAssert{x.ifaceOperand(outs[i].val), T}
 				outs[i].parts = []Term{TProj{a, 0}, TProj{a, 1}}
 			}
 		}
@@ -2594,6 +2595,44 @@ func (x *SX) call(call *ast.CallExpr, st *sxState, nres int) []evalOut {
 				if fd.Recv != nil && len(fd.Recv.List) == 1 && len(fd.Recv.List[0].Names) == 1 {
 					recvObj = c.Info.Defs[fd.Recv.List[0].Names[0]]
 				}
+				// an accessor behind defensive guards (`if ego.val == nil { return 0 }; return len(ego.val)`) is the one expression it
+				// returns (accessorTerm proves the guarded returns agree with it): its decisions are not the caller's
+				if len(args) == 0 && recvObj != nil && recv != nil && !x.inAccessor {
+					x.inAccessor = true
+					at := c.accessorTerm(fd)
+					x.inAccessor = false
+					if at != nil && guardedAccessor[fd] {
+						heap := ao.st.heap
+						t := mapBU(at, func(u Term) Term {
+							switch y := u.(type) {
+							case TVar:
+								if y.Obj == recvObj {
+									return recv
+								}
+							case TSel:
+								y.Epoch = heap
+								return y
+							case TIndex:
+								y.Epoch = heap
+								return y
+							case TSlice:
+								y.Epoch = heap
+								return y
+							case TDeref:
+								y.Epoch = heap
+								return y
+							case TBuiltin:
+								if y.Epoch >= 0 {
+									y.Epoch = heap
+								}
+								return y
+							}
+							return u
+						})
+						res = append(res, evalOut{outcome: outcome{st: ao.st}, val: t})
+						continue
+					}
+				}
 				x.instArgs = targs
 				res = append(res, x.inline(fd.Type, fd.Body, recvObj, recv, args, call, ao.st, fun)...)
 				continue
@@ -2720,6 +2759,17 @@ func (x *SX) pureCall(f *types.Func) bool {
 		return false
 	}
 	if f.Pkg() == nil {
+		// error.Error(): the standard library's error texts are computed without writing; an error type of this package must be
+		// effect-free according to E3
+		if f.Name() == "Error" {
+			a := x.c.E3()
+			for _, fn := range a.methods["Error"] {
+				if len(a.eff[fn]) != 0 {
+					return false
+				}
+			}
+			return true
+		}
 		return false
 	}
 	switch f.Pkg().Path() {
@@ -3030,6 +3080,13 @@ func simplify(t Term) Term {
 	case TBin:
 		a, aok := v.X.(TConst)
 		b, bok := v.Y.(TConst)
+		// short-circuit operators with a constant left operand: false && x is false (x is not evaluated), true && x is x, …
+		if aok && a.Val.Kind() == constant.Bool && (v.Op == token.LAND || v.Op == token.LOR) {
+			if constant.BoolVal(a.Val) == (v.Op == token.LOR) {
+				return a
+			}
+			return v.Y
+		}
 		if aok && bok {
 			switch v.Op {
 			case token.ADD, token.SUB, token.MUL, token.REM, token.AND, token.OR, token.XOR:
@@ -3101,4 +3158,25 @@ func simplify(t Term) Term {
 func namedOf(t types.Type) *types.Named {
 	n, _ := t.(*types.Named)
 	return n
+}
+
+// ifaceOperand: any(v).(T) with v already of an interface type asserts on the same dynamic value as v.(T).
+func (x *SX) ifaceOperand(t Term) Term {
+	for {
+		cv, ok := t.(TConv)
+		if !ok || cv.To == nil {
+			return t
+		}
+		if _, isI := cv.To.Underlying().(*types.Interface); !isI {
+			return t
+		}
+		inner := x.c.termType(cv.X)
+		if inner == nil {
+			return t
+		}
+		if _, isI := inner.Underlying().(*types.Interface); !isI {
+			return t
+		}
+		t = cv.X
+	}
 }
